@@ -8,6 +8,8 @@
 //	real-poll             one case through the untouched 3 s polling goroutine
 //	concurrency           getters in 1..8 goroutines next to edit+reload loops (grandchild
 //	                      process; race detector in the race flavour; fatal errors keyed)
+//	snapshot              String()/ToString()/GetKeys() next to reloads of files whose many
+//	                      keys all carry one generation token: one call shows one state
 //	write-back            SetValues on files with comments / blank lines / ordered keys
 //	atomicity-sampler     concurrent re-reads of a large file during SetValues
 //	atomicity-crashpoints (thorough) SIGKILL at every file syscall of the write-back (strace)
@@ -30,6 +32,10 @@ func main() {
 		case "child-stress":
 			clearEnv()
 			childStress(os.Args[2:])
+			return
+		case "child-snap":
+			clearEnv()
+			childSnap(os.Args[2:])
 			return
 		case "child-write":
 			clearEnv()
@@ -59,6 +65,7 @@ func main() {
 	timed(c, "write-back", func() { c.Cases("write-back", c.N(pick(race, 200, 2400), pick(race, 1500, 40000)), func(i int, r *vlib.Rand) { writebackCase(c, i, r) }) })
 	timed(c, "atomicity-sampler", func() { c.Cases("atomicity-sampler", c.N(pick(race, 2, 8), pick(race, 4, 32)), func(i int, r *vlib.Rand) { samplerCase(c, i, r) }) })
 	timed(c, "concurrency", func() { c.Cases("concurrency", c.N(pick(race, 8, 24), pick(race, 32, 160)), func(i int, r *vlib.Rand) { stressCase(c, i, r) }) })
+	timed(c, "snapshot", func() { c.Cases("snapshot", c.N(pick(race, 8, 24), pick(race, 32, 160)), func(i int, r *vlib.Rand) { snapCase(c, i, r) }) })
 	if !race {
 		timed(c, "hostile-syntax", func() { c.Cases("hostile-syntax", 6, func(i int, r *vlib.Rand) { hostileCase(c, i, r) }) })
 		if c.Thorough() {
